@@ -366,3 +366,28 @@ def angularMomentum (M : SModel α) (st : State α) : V3 α × V3 α :=
 
 end
 end Rbdl.Spec
+
+/-! ### rigid union of two bodies from the definitions (C15) -/
+namespace Rbdl.Spec
+open Lean.Grind Rbdl
+section
+variable {α : Type} [Field α]
+
+/-- inertia about the point `c` of a body with centroidal inertia `Ic` (already expressed in the
+    reference axes), mass `m` and centre of mass `p`: `Ic + m (|d|² 1 − d dᵀ)`, `d = p − c` -/
+def shiftInertia (Ic : M3 α) (m : α) (p c : V3 α) : M3 α :=
+  let d := p - c
+  Ic + m * (d.dot d * (M3.one : M3 α) - M3.outer d d)
+
+/-- mass, centre of mass and centroidal inertia of the rigid union of body `a` (in its own frame)
+    and body `b` placed by `SpatialTransform(E, r)` (frame origin at `r`, axes the rows of `E`) -/
+def rigidUnion (ma : α) (ca : V3 α) (Ia : M3 α) (E : M3 α) (r : V3 α) (mb : α) (cb : V3 α) (Ib : M3 α) :
+    α × V3 α × M3 α :=
+  let m := ma + mb
+  let cbA := r + E.transpose * cb
+  let c := (1 / m) * (ma * ca + mb * cbA)
+  let IbA := E.transpose * Ib * E
+  (m, c, shiftInertia Ia ma ca c + shiftInertia IbA mb cbA c)
+
+end
+end Rbdl.Spec
